@@ -465,3 +465,34 @@ def rule_box_face_strictness(ctx, rule):
                 ctx.report(rule, '%s:face' % fname, 'src/%s:%s %s' % (cfile, line_of(e), fname),
                            'the coordinate is compared with half the box size by %s, the boundary check uses the strict comparison: a particle exactly on a face is inside for the boundary code and outside for this test (it is refused, or dropped when the tree re-inserts it)' % render(e))
     ctx.covered(rule, 'comparisons of a coordinate with half the box size are strict everywhere', n, floor=12)
+
+
+# ------------------------------------------------------------------ drift distances are magnitudes
+def rule_drift_magnitudes(ctx, rule):
+    """The line searches enlarge their search radii by the distance a particle can have moved during the last step:
+    |dt_last_done| * |v|. The step may be negative (integration backwards), the distance may not: a product of the signed
+    step with a speed (a square root) that is added to radii has to be taken through fabs - otherwise the tree search
+    *shrinks* its opening radius when time runs backwards and misses the pairs the brute-force line search finds."""
+    n = 0
+    for cfile, tu, fname, fn in _own_funcs():
+        if cfile != 'collision.c':
+            continue
+        inside_fabs = set()
+        for e in walk(cfront.body(fn)):
+            if e.get('kind') == 'CallExpr' and callee_name(e) in ('fabs', 'fabsf'):
+                for x in walk(e):
+                    inside_fabs.add(id(x))
+        for e in walk(cfront.body(fn)):
+            if e.get('kind') != 'BinaryOperator' or e.get('opcode') != '*':
+                continue
+            a, b = e['inner']
+            ra, rb = render(a).replace(' ', ''), render(b).replace(' ', '')
+            step = [x for x in (ra, rb) if re.fullmatch(r'\(*(r\.)?dt_last_done\)*', x)]
+            speed = any(y.get('kind') == 'CallExpr' and callee_name(y) == 'sqrt' for x in (a, b) for y in walk(x))
+            if not step or not speed:
+                continue
+            n += 1
+            if id(e) not in inside_fabs:
+                ctx.report(rule, '%s:drift' % fname, 'src/%s:%s %s' % (cfile, line_of(e), fname),
+                           'the drift distance %s carries the sign of the last step: for a backward integration it is negative and the search radius it is added to shrinks - the tree search then misses approaching pairs that the direct line search reports' % render(e))
+    ctx.covered(rule, 'drift distances added to search radii are magnitudes (|dt_last_done| times a speed)', n, floor=2)
